@@ -94,7 +94,8 @@ class C16(Harness):
                 def transform(self, Z, X=None):
                     a = np.empty(Z.shape, dtype=object if sym else float)
                     for idx in np.ndindex(Z.shape):
-                        a[idx] = W.uf("rowt", [Z[idx]], "r>r")
+                        v = Z[idx]
+                        a[idx] = v if (isinstance(v, float) and v != v) else W.uf("rowt", [v], "r>r")  # (a missing value stays missing)
                     return a
 
             return W.load(PANEL + ".compose").SeriesToSeriesRowTransformer(Tr())
@@ -173,6 +174,26 @@ class C16(Harness):
                     X1[c] = [pd.Series(list(cell_), index=range(1, len(cell_) + 1), dtype=object if sym else float) for cell_ in X1[c]]
                 out["one_based_cells"] = rows_of(apply(X1))
             if k == "column-ensemble":
+                # the same container object, its instances re-ordered in place between two calls
+                Xc = X.copy()
+                first_call = rows_of(apply(Xc))
+                for c_ in list(Xc.columns):
+                    Xc[c_] = [Xc[c_].iloc[i] for i in inp["perm"]]
+                out["inplace"] = {"first": first_call, "after": rows_of(apply(Xc))}
+            if k == "row" and ni >= 2:
+                # a primitive (one value per instance) column next to the series column, missing for the second instance:
+                # what an instance's row shows for it does not depend on the instance stored before it
+                import pandas as pd
+
+                Xq = X.copy()
+                Xq["prim"] = [1.5] + [float("nan")] + [2.5] * (ni - 2)
+                try:
+                    out["primitive"] = {"full": rows_of(apply(Xq)), "single": rows_of(apply(Xq.iloc[[1]].reset_index(drop=True)))}
+                except Exception as e:  # noqa
+                    if type(e).__module__.startswith("vf."):
+                        raise
+                    out["primitive"] = {"raised": "%s: %s" % (type(e).__name__, str(e)[:60])}
+            if k == "column-ensemble":
                 # the predicted labels (ties between the averaged class probabilities included)
                 lab = lambda XX: [[S(v)] for v in list(t.predict(XX))]  # noqa: E731
                 out["labels"] = {"full": lab(X), "perm": lab(Xp), "single": lab(Xs)}
@@ -217,6 +238,18 @@ class C16(Harness):
             return
         P.eq(label, a, b, detail)
 
+    def _same_nan(self, P, label, a, b, detail):
+        if isinstance(a, list) and isinstance(b, list):
+            P.check(label, len(a) == len(b), detail)
+            for u, v in zip(a, b):
+                self._same_nan(P, label, u, v, detail)
+            return
+        na, nb_ = isinstance(a, float) and a != a, isinstance(b, float) and b != b
+        if na or nb_:
+            P.check(label, na and nb_, detail)
+            return
+        P.eq(label, a, b, detail)
+
     def oracle(self, P, inp, out, cell):
         d = {"estimator": cell["kind"]}
         ni = len(inp["x"])
@@ -236,6 +269,21 @@ class C16(Harness):
             self._same(P, "single-instance-equals-batch-row", out["single_keep"][0], full[inp["single"]], dk)
         P.check("row-count-and-order", len(out["batch_after_single"]) == ni, dict(d, what="batch after a single-instance call"))
         self._same(P, "single-instance-equals-batch-row", out["batch_after_single"], full, dict(d, what="the whole batch transformed after a single-instance call on the same object"))
+        if "inplace" in out:
+            ip = out["inplace"]
+            di = dict(d, what="the same container object, instances re-ordered in place between the calls")
+            P.check("row-count-and-order", len(ip["after"]) == ni, di)
+            self._same(P, "single-instance-equals-batch-row", ip["first"], full, di)
+            for r, src in enumerate(inp["perm"]):
+                if r < len(ip["after"]):
+                    self._same(P, "permutation-equivariant", ip["after"][r], full[src], di)
+        if "primitive" in out:
+            pr = out["primitive"]
+            dp_ = dict(d, what="primitive column missing for the second instance")
+            if "raised" not in pr:  # (a transformer may refuse the mixed panel altogether)
+                P.check("row-count-and-order", len(pr["full"]) == ni and len(pr["single"]) == 1, dp_)
+                if len(pr["full"]) == ni and len(pr["single"]) == 1:
+                    self._same_nan(P, "single-instance-equals-batch-row", pr["single"][0], pr["full"][1], dp_)
         if "labels" in out:
             lb = out["labels"]
             P.check("row-count-and-order", len(lb["full"]) == ni and len(lb["perm"]) == ni and len(lb["single"]) == 1, dict(d, what="predict"))
